@@ -158,4 +158,4 @@ for _p, _w in WATCH.items():
 NOT_APPLICABLE = {
     "C15": "circuit shape / pinned Groth16 keys: the subject is the hidden ark_relations constraint store and binary key files; no pre/postcondition on a /repo function can state matrix equality across runs or SNARK verification (DESIGN.md C15)",
 }
-FIX_NOTE = "f4c29b3 7a29832 e58bcf9 db08dd6 b6643e6 5514f4e 35a968d dc3044d"
+FIX_NOTE = "f4c29b3 7a29832 e58bcf9 db08dd6 b6643e6 5514f4e 35a968d dc3044d 8bf0bfb"
